@@ -8,9 +8,9 @@ S2C: every enumerated record goes through the real tornado.log.LogFormatter.form
 C2S: seeded random messages (arbitrary Unicode, arbitrary bytes, random directive soup) with
      random shapes, validated by TLC the same way.
 
-Binding demonstrated during development (scratch worktree, notes/text.md): dropping the final
-`.replace("\n", "\n    ")`, joining exc_text lines with "\n" after the replace, removing the
-`except Exception` around getMessage - each reported as VIOLATION.
+Binding demonstrated during development (scratch worktree, notes/text.md): indentation of three
+spaces instead of four, `except Exception` narrowed to UnicodeError around getMessage (a mismatched
+%-argument then raises out of format) - each reported as VIOLATION.
 """
 import random
 
